@@ -2,7 +2,6 @@
 package routinex
 
 import (
-	"fmt"
 	"time"
 )
 
@@ -286,36 +285,21 @@ func (m *model) effective(t *mTimer) bool {
 	return m.ctxID != 0 && rec.current && (rec.status == stFailed || rec.status == stSucceeded)
 }
 
-// TimerSection applies the critical section of one fired retry callback. Which
-// of several simultaneously fired timers ran is not observable, only whether the
-// section started an instance (spawned); the model picks accordingly.
-func (m *model) TimerSection(spawned bool) error {
-	if len(m.fired) == 0 {
-		return fmt.Errorf("a retry-timer critical section ran although the machine has no fired timer")
-	}
-	pick := -1
+// TimerSection applies the critical section of a fired retry callback of record
+// rec (the hook point identifies the record).
+func (m *model) TimerSection(rec *mRec) {
 	for i, t := range m.fired {
-		if m.effective(t) == spawned {
-			pick = i
+		if t.rec == rec {
+			m.fired = append(m.fired[:i], m.fired[i+1:]...)
+			if rec.timer == t {
+				rec.timer = nil
+			}
 			break
 		}
 	}
-	if pick < 0 {
-		if spawned {
-			return fmt.Errorf("a retry-timer critical section started an instance although no fired timer belongs to a current, exited routine with a context")
-		}
-		pick = 0 // every fired timer should have restarted its routine: apply it, the missing run is reported later
-	}
-	t := m.fired[pick]
-	m.fired = append(m.fired[:pick], m.fired[pick+1:]...)
-	rec := t.rec
-	if rec.timer == t {
-		rec.timer = nil
-	}
-	if m.effective(t) {
+	if m.ctxID != 0 && rec.current && (rec.status == stFailed || rec.status == stSucceeded) {
 		m.start(rec, true)
 	}
-	return nil
 }
 
 // returnable reports what WaitExited may return right now.
